@@ -2,6 +2,7 @@ package main
 
 import (
 	"berty.tech/go-ipfs-log/entry"
+	"berty.tech/go-orbit-db/iface"
 	"berty.tech/go-orbit-db/stores/basestore"
 	"context"
 	"fmt"
@@ -76,7 +77,7 @@ func (r *stRun) run(b Behaviour, idx int) {
 		}
 	})
 	defer h.ClearHandlers()
-	c, err := newCluster([]string{"a", "b"}, "kv", fmt.Sprintf("s%d", idx))
+	c, err := newCluster([]string{"a", "b", "c"}, "kv", fmt.Sprintf("s%d", idx))
 	if err != nil {
 		r.res.Inconclusive = append(r.res.Inconclusive, b.ID+": setup: "+err.Error())
 		return
@@ -309,6 +310,39 @@ done:
 						r.violate("rest", fmt.Sprintf("after a head nobody signed (Lamport time 1000, refused) was announced, at rest with %d entries: progress %d, max %d", n, gp, gm), n, []int{gp, gm})
 					}
 				}
+			}
+		}
+	}
+	// a replica that only reads: it replicates the whole (multi-writer) log of a through a's heads, is stopped, started and
+	// loaded from its cache (one or few cached heads leading to many entries of several writers)
+	if rc, ok := c.refs["c"]; ok && store.OpLog().Len() > 0 {
+		heads := []ipfslog.Entry{}
+		for _, hh := range store.OpLog().Heads().Slice() {
+			heads = append(heads, copyEntry(hh))
+		}
+		if err := rc.S.Sync(ctx, heads); err == nil && sim.Settle(settleTimeout, c.nodes["c"]) == nil {
+			restRule := func(s3 iface.Store, when string) {
+				n, gm, gp := s3.OpLog().Len(), s3.ReplicationStatus().GetMax(), s3.ReplicationStatus().GetProgress()
+				maxT := 0
+				for _, e := range s3.OpLog().GetEntries().Slice() {
+					if t := e.GetClock().GetTime(); t > maxT {
+						maxT = t
+					}
+				}
+				r.res.Comparisons++
+				if n != store.OpLog().Len() {
+					return // not the complete log: the rule speaks of a complete one
+				}
+				if gp != gm || gm < maxT || gm > n {
+					r.violate("rest", fmt.Sprintf("reading replica %s, at rest with %d entries (largest time %d): progress %d, max %d", when, n, maxT, gp, gm), n, []int{gp, gm})
+				}
+			}
+			r.checkMonotone(rc.S.ReplicationStatus(), "reading replica c")
+			restRule(rc.S, "after replicating a's log")
+			if err := c.restart("c", -1); err == nil && c.settle() == nil {
+				r.checkMonotone(c.refs["c"].S.ReplicationStatus(), "reading replica c after reload")
+				restRule(c.refs["c"].S, "after a restart and Load from its cache")
+				r.res.Stats["reader_reloads"]++
 			}
 		}
 	}
